@@ -62,6 +62,10 @@ func Denitr(g *GlobalVarsMain, thetasatFromPorges bool) {
 		MaxN2O := 0.63
 		//LET FO = 1 - 2.05 * Max(0,Thetarel-0.62)
 		FO := 1 - 2.05*math.Max(0, thetarel-0.62)
+		// water content above the assumed saturation (relative water content above 1.108): no negative N2O share
+		if FO < 0 {
+			FO = 0
+		}
 		//Let DNO = (0.44 + 0.0015*3)/3
 		DNO := (0.44 + 0.0015*3) / 3
 		//Let FN = Min(DNO*nitratOb30*0.667,(0.44+0.0015 * 0.67*nitratOB30))
